@@ -46,6 +46,20 @@ type OpSpec struct {
 // Faults selects which deviation kinds the search may use.
 type Faults struct {
 	Drop, Dup, Reorder, Campaign, Partition bool
+	CampaignAt                              []int // restrict Campaign to peers on these stores (nil = any store)
+	IsolateAt                               []int // restrict partitions to isolating one of these stores (nil = any store)
+}
+
+func allowed(set []int, s int) bool {
+	if len(set) == 0 {
+		return true
+	}
+	for _, x := range set {
+		if x == s {
+			return true
+		}
+	}
+	return false
 }
 
 func (f Faults) String() string {
@@ -60,10 +74,18 @@ func (f Faults) String() string {
 		s = append(s, "reorder")
 	}
 	if f.Campaign {
-		s = append(s, "campaign")
+		if len(f.CampaignAt) > 0 {
+			s = append(s, fmt.Sprintf("campaign@stores%v", f.CampaignAt))
+		} else {
+			s = append(s, "campaign")
+		}
 	}
 	if f.Partition {
-		s = append(s, "partition")
+		if len(f.IsolateAt) > 0 {
+			s = append(s, fmt.Sprintf("partition(isolate one of %v)+heal", f.IsolateAt))
+		} else {
+			s = append(s, "partition+heal")
+		}
 	}
 	if len(s) == 0 {
 		return "none"
@@ -81,6 +103,10 @@ type Scenario struct {
 	Faults   Faults
 	MaxBeats int // heartbeat rounds (HeartbeatTick ticks each) per leader peer; HeartbeatTick*MaxBeats < ElectionTick
 	MaxDepth int
+	// DepthBound: MaxDepth is a declared bound (all states reachable by at most MaxDepth
+	// transitions are expanded, exactly). Otherwise MaxDepth is only a safety net and the
+	// scenario is expected to close (no enabled transition left anywhere).
+	DepthBound bool
 }
 
 func (sc *Scenario) Describe() string {
@@ -88,8 +114,12 @@ func (sc *Scenario) Describe() string {
 	for _, o := range sc.Ops {
 		ops = append(ops, fmt.Sprintf("%s(r%d,%s,%s)@%v", o.Kind, o.Region, o.Key, o.Tag, o.Stores))
 	}
-	return fmt.Sprintf("%s: regions=%d leaders=%v ops=[%s] deviations<=%d faults=%s beats<=%d depth<=%d",
-		sc.Name, sc.Regions, sc.Leaders, strings.Join(ops, " "), sc.Budget, sc.Faults, sc.MaxBeats, sc.MaxDepth)
+	depth := "until closed"
+	if sc.DepthBound {
+		depth = fmt.Sprintf("depth<=%d", sc.MaxDepth)
+	}
+	return fmt.Sprintf("%s: regions=%d leaders=%v ops=[%s] deviations<=%d faults=%s heartbeat-rounds<=%d %s",
+		sc.Name, sc.Regions, sc.Leaders, strings.Join(ops, " "), sc.Budget, sc.Faults, sc.MaxBeats, depth)
 }
 
 func peerID(region, storeIdx int) uint64 { return uint64(region*10 + storeIdx) }
@@ -289,8 +319,9 @@ type Cluster struct {
 	devs   int
 	beats  map[uint64]int
 	step   int
-	errs   []string // raft Step errors observed (part of the state)
-	wait   func()   // synctest.Wait
+	errs   []string            // raft Step errors observed (part of the state)
+	votes  map[uint64][]string // per peer: (pre)vote responses delivered to it (raft keeps the tally privately)
+	wait   func()              // synctest.Wait
 	closed bool
 }
 
@@ -317,7 +348,7 @@ var loggerOnce sync.Once
 func NewCluster(sc *Scenario, wait func()) (*Cluster, error) {
 	loggerOnce.Do(func() { myraft.SetLogger(discardLogger{}) })
 	c := &Cluster{sc: sc, peers: map[uint64]*peer.Peer{}, metas: map[int]manifest.RegionMeta{},
-		net: &network{q: map[link][]myraft.Message{}}, beats: map[uint64]int{}, wait: wait}
+		net: &network{q: map[link][]myraft.Message{}}, beats: map[uint64]int{}, votes: map[uint64][]string{}, wait: wait}
 	for s := 1; s <= NumStores; s++ {
 		rc := &recorder{kv: map[string]string{}}
 		c.recs[s] = rc
@@ -410,6 +441,9 @@ func (c *Cluster) deliver(l link, k int, remove bool) error {
 	if !ok {
 		return fmt.Errorf("no message %d on link %s", k, l)
 	}
+	if m.Type == myraft.MsgRequestVoteResponse || m.Type.String() == "MsgPreVoteResp" {
+		c.votes[m.To] = append(c.votes[m.To], fmt.Sprintf("%d:%s:t%d:%v", m.From, m.Type, m.Term, m.Reject))
+	}
 	if err := c.stores[storeOf(m.To)].Step(m); err != nil {
 		c.errs = append(c.errs, fmt.Sprintf("%s:%v", l, err))
 	}
@@ -453,7 +487,7 @@ func (c *Cluster) Enabled() []string {
 	}
 	if f.Campaign {
 		for _, id := range c.pids {
-			if c.peers[id].Status().RaftState != myraft.StateLeader {
+			if allowed(f.CampaignAt, storeOf(id)) && c.peers[id].Status().RaftState != myraft.StateLeader {
 				out = append(out, "c:"+strconv.FormatUint(id, 10))
 			}
 		}
@@ -461,7 +495,9 @@ func (c *Cluster) Enabled() []string {
 	if f.Partition {
 		if c.net.isolated == 0 {
 			for s := 1; s <= NumStores; s++ {
-				out = append(out, "p:"+strconv.Itoa(s))
+				if allowed(f.IsolateAt, s) {
+					out = append(out, "p:"+strconv.Itoa(s))
+				}
 			}
 		} else {
 			out = append(out, "h")
@@ -720,6 +756,11 @@ func (c *Cluster) Key() string {
 				pr := st.Progress[k]
 				fmt.Fprintf(&sb, " pr%d{%s}", k, pr.String())
 			}
+		}
+		if st.RaftState == myraft.StateCandidate || st.RaftState == myraft.StatePreCandidate {
+			vs := append([]string(nil), c.votes[id]...)
+			sort.Strings(vs)
+			fmt.Fprintf(&sb, " votes%v", vs)
 		}
 		fmt.Fprintf(&sb, " reads%d\n", p.VerifPendingReads())
 	}
